@@ -29,6 +29,7 @@ def native_plan(tier):
         ('lattice_ops_le3', pairs(3, k, v) + ';' + pairs(3, k, v), 'all pairs of lattice indices built from <= 3 inserts each'),
         ('noindex_ops_le3', pairs(3, '0', v) + ';' + pairs(3, '0', v), 'all pairs of no-index vectors of <= 3 rows'),
         ('combined_view_native', '0-3;0-1;0-1;0-2;5;6;0-3;0-1;0-1;0-2;7;8', 'all combinations of two fake indices (len, is_empty, key present, 0..2 values)'),
+        ('forwarders_native', '0-2;0-2;0-1;0-1;7;0-1;0-1;8;0-1;0-1;9', 'the &mut T / &T forwarding impls against a recording implementor, small keys/values'),
     ]
 
 
@@ -49,6 +50,8 @@ def cex_candidates(container, fn):
         return ['type1_merge_le2']
     if 'RelIndexCombined' in c:
         return ['combined_view_native']
+    if 'for&mut T' in c or 'for&T' in c:
+        return ['forwarders_native']
     return []
 
 
@@ -104,7 +107,7 @@ def run_verus_part():
 
 
 def run_kani_part(crate, tier):
-    hs = ['combined_view']
+    hs = ['combined_view', 'forwarders']
     res, dt, text = kani.run_kani(crate, hs, jobs=2, timeout=3600)
     out = {'harnesses': hs, 'results': res, 'wall_s': dt, 'failures': [], 'inconclusive': []}
     missing = [h for h in hs if h not in res or res[h]['status'] is None]
